@@ -120,6 +120,15 @@ def getChunks (vars : Vars) (chunks : List Bytes) : Val :=
     | some (.cntr n) => .int n
     | some (.ins v k) => insGet k v sub
 
+/-- The inspector's `GetTo` returns an error (`ctx.Err`, the value reads as nil): an index chunk that is not a number. -/
+def getChunksErr (vars : Vars) (chunks : List Bytes) : Bool :=
+  match chunks with
+  | [] => false
+  | name :: sub =>
+    match getVar vars name with
+    | some (.ins v k) => insGetErr k v sub
+    | _ => false
+
 /-- `Ctx.replaceQB`: `a[i].b` → `a.<text of i>.b` (only inside counter loops). -/
 def replaceQB (vars : Vars) (path : Bytes) : Option Bytes :=
   match indexOf 91 path, indexOf 93 path with
@@ -139,9 +148,9 @@ def replaceQB (vars : Vars) (path : Bytes) : Option Bytes :=
 def getCore (vars : Vars) (qb : Bool) (path : Bytes) : Val × Option Err :=
   if qb then
     match replaceQB vars path with
-    | some p => (getChunks vars (splitDots p), none)
+    | some p => if getChunksErr vars (splitDots p) then (.nil, some .parse) else (getChunks vars (splitDots p), none)
     | none => (.nil, some .unknownType)
-  else (getChunks vars (splitDots path), none)
+  else if getChunksErr vars (splitDots path) then (.nil, some .parse) else (getChunks vars (splitDots path), none)
 
 /-- `Ctx.get`: resets `Err` (and `bufX`), substitutes `[i]` inside counter loops, resolves the path. -/
 def Ctx.get (c : Ctx) (path : Bytes) : Val × Ctx :=
